@@ -240,16 +240,20 @@ pub fn run_program(prog: &Value, out: &mut dyn Write) {
         rw_readers: BTreeMap::new(), notified: BTreeSet::new(), exited: BTreeSet::new(), labels: BTreeMap::new(), log: vec![], calls: BTreeMap::new() }), cv: Condvar::new(),
         atomics: prog["atomics"].as_bool().unwrap_or(false) });
 
+    // a frozen virtual clock: every Instant::now() of the library returns the same instant, so a rate limited target has its burst and nothing more
+    if prog["setup"]["frozen_clock"].as_bool().unwrap_or(false) { crate::clock::enable(); }
     // ---- setup (not scheduled: the observer is installed afterwards, except that tickers must be registered) ----
     let spy = Spy::new(40, 10);
     let setup = &prog["setup"];
     let multi = setup["multi"].as_bool().unwrap_or(false);
     let nb = setup["bars"].as_i64().unwrap_or(1);
-    let mp = if multi { Some(MultiProgress::with_draw_target(ProgressDrawTarget::term_like(Box::new(spy.clone())))) } else { None };
+    let mp = if multi { Some(MultiProgress::with_draw_target(if setup["hz"].as_u64().unwrap_or(0) > 0 { ProgressDrawTarget::term_like_with_hz(Box::new(spy.clone()), setup["hz"].as_u64().unwrap() as u8) }
+                                                               else { ProgressDrawTarget::term_like(Box::new(spy.clone())) })) } else { None };
     let mut bars: BTreeMap<i64, ProgressBar> = BTreeMap::new();
     for b in 1..=nb {
         let pb = if multi { mp.as_ref().unwrap().add(ProgressBar::with_draw_target(Some(10), ProgressDrawTarget::hidden())) }
                  else if setup["hidden"].as_bool().unwrap_or(false) { ProgressBar::with_draw_target(Some(1000), ProgressDrawTarget::hidden()) }
+                 else if setup["hz"].as_u64().unwrap_or(0) > 0 { ProgressBar::with_draw_target(Some(10), ProgressDrawTarget::term_like_with_hz(Box::new(spy.clone()), setup["hz"].as_u64().unwrap() as u8)) }
                  else { ProgressBar::with_draw_target(Some(10), ProgressDrawTarget::term_like(Box::new(spy.clone()))) };
         if let Some(p0) = setup["pos0"].as_u64() { pb.set_position(p0); }
         pb.set_style(ProgressStyle::with_template("{spinner}{msg}:{pos}").unwrap().tick_strings(&["0", "1", "2", "3", "4", "5", "6", "7", "8", "9"]));
@@ -402,6 +406,8 @@ pub fn run_program(prog: &Value, out: &mut dyn Write) {
             }
         }
     }
+    rec.insert("flushes".into(), json!(cs.iter().filter(|c| c["k"] == "flush").count()));
+    rec.insert("limcheck".into(), json!(prog["limcheck"].as_u64().unwrap_or(0)));
     rec.insert("frames".into(), json!(frames));
     rec.insert("framecheck".into(), json!(prog["framecheck"].as_bool().unwrap_or(false)));
     rec.insert("nbars".into(), json!(nb));
